@@ -162,6 +162,11 @@ def install(tokens=False, digest="const", bins="const", caches="bypass"):
         from vlib import binstub
 
         _core.register_patch(_bins.bins, binstub.bins_contract)
+    elif bins == "smt":
+        from vlib import binstub
+
+        binstub._encoder()  # translate now: an untranslatable bins() must fail the worker (inconclusive), not silently change the model
+        _core.register_patch(_bins.bins, binstub.bins_smt)
 
     # ---- S12: unbound set.union(a, b, ...) on CrossHair's set shells (C descriptor rejects the shell): same semantics
     def _set_union(first, *others):
